@@ -67,5 +67,40 @@ Definition ops_C02 : list opdef := [
      op_spec := fun_spec (fun a => match a with
        | [ws; i] => match as_zs ws, as_z i with
            | Some ws, Some i => c02_pair (spec_Select ws i) | _, _ => VBad end
+       | _ => VBad end) |};
+  (* "held" variants: the Go side builds the indexes of a decoy bitmap between building and querying,
+     and queries twice; the result must be the same (the extra last argument, the decoy, is ignored here) *)
+  {| op_name := "bitmap.Select32/held";
+     op_run := fun a => match a with
+       | [ws; i; _] => match as_zs ws, as_z i with
+           | Some ws, Some i =>
+               if c02_in_range ws i then
+                 match IndexSelect32 ws with
+                 | Some sidx => match Select32 ws sidx i with Some p => c02_pair p | None => VPanic end
+                 | None => VPanic
+                 end
+               else VBad
+           | _, _ => VBad end
+       | _ => VBad end;
+     op_spec := fun_spec (fun a => match a with
+       | [ws; i; _] => match as_zs ws, as_z i with
+           | Some ws, Some i => c02_pair (spec_Select ws i) | _, _ => VBad end
+       | _ => VBad end) |};
+  {| op_name := "bitmap.Select32R64/held";
+     op_run := fun a => match a with
+       | [ws; i; _] => match as_zs ws, as_z i with
+           | Some ws, Some i =>
+               if c02_in_range ws i then
+                 match IndexSelect32R64 ws with
+                 | Some (sidx, ridx) =>
+                     match Select32R64 ws sidx ridx i with Some p => c02_pair p | None => VPanic end
+                 | None => VPanic
+                 end
+               else VBad
+           | _, _ => VBad end
+       | _ => VBad end;
+     op_spec := fun_spec (fun a => match a with
+       | [ws; i; _] => match as_zs ws, as_z i with
+           | Some ws, Some i => c02_pair (spec_Select ws i) | _, _ => VBad end
        | _ => VBad end) |}
 ].
